@@ -390,3 +390,24 @@ Example ex_env_names_other : evm_from_env [("EVM_NETWORK", "arbitrum-sepolia")] 
   resolve_evm (Some (evm_name EvmOne, evm_items EvmOne)) [("EVM_NETWORK", "arbitrum-sepolia")] = Some EvmOne /\
   resolve_evm None [("RPC_URL", "u"); ("PAYMENT_TOKEN_ADDRESS", "t"); ("DATA_PAYMENTS_ADDRESS", "p")] = Some (EvmCustom "u" "t" "p").
 Proof. repeat split. Qed.
+
+(* ================================================================ a --testnet node never asks the mainnet contacts *)
+Lemma sources_lemma c usable cached from_urls count :
+  (c_testnet c = true -> ~ In SrcMainnet (cfg_sources c usable cached from_urls count)) /\
+  (c_first c = true -> cfg_sources c usable cached from_urls count = []) /\
+  (c_local c = true -> cfg_sources c usable cached from_urls count = []) /\
+  (c_urls c = [] -> ~ In SrcUrls (cfg_sources c usable cached from_urls count)).
+Proof.
+  unfold cfg_sources, select_sources.
+  destruct (c_first c), (c_local c), (c_testnet c), (c_ignore c), (c_urls c) as [|u us];
+    cbn [negb andb app];
+    repeat match goal with |- context [if ?b then _ else _] => destruct b end;
+    repeat split; intros H; try discriminate H; try reflexivity; cbn;
+    try (intros [X|X]; [discriminate X|try destruct X as [X|X]; try discriminate X; try contradiction]);
+    try (intros []); try tauto.
+Qed.
+
+Example ex_default_node_asks_mainnet : cfg_sources ex_cfg 1 0 5 100 = [SrcUrls] /\
+  select_sources false false false false [] 0 0 0 100 = [SrcMainnet] /\
+  select_sources false false true true [] 0 0 0 100 = [].
+Proof. vm_compute. repeat split. Qed.
